@@ -36,6 +36,12 @@ def set_data(dev, off, data):
     dev.setdefault('data', {})[str(off)] = data.hex()
 
 
+def host_call_blocks(data_dev):
+    """parameter blocks for the host-call macro: {handle, buffer, length} twice, the buffers are the seeded bytes at DATA+0x3C0"""
+    words = [1, DATA + 0x3C0, 16, 2, DATA + 0x3D0, 8]
+    set_data(data_dev, 0x800, b''.join(w.to_bytes(4, 'little') for w in words))
+
+
 def legal_modes(cfg):
     ms = ['usr', 'fiq', 'irq', 'svc', 'abt', 'und', 'sys']
     if cfg.get('have_security_ext', True):
@@ -254,8 +260,16 @@ def macro(rng, thumb):
     """a short sequence of RELATED instructions (same base register, matching pairs) as stream entries: single random words
     almost never form these, yet state such as exclusive monitors, IT blocks, stack frames and saved PSRs only exists across them"""
     r = lambda: rng.randrange(0, 13)
-    k = rng.randrange(8)
+    k = rng.randrange(9)
     rn, rt, rd, rx = r(), r(), r(), r()
+    if k == 8:
+        # a debugger/host call in the style of ARM semihosting: operation number in r0, parameter block pointer in r1 (the block at DATA+0x800
+        # holds {handle, buffer, length}), then the magic SVC / BKPT.  An emulator that serves such calls must stay total and deterministic
+        op = rng.choice([0x01, 0x02, 0x03, 0x04, 0x05, 0x05, 0x05, 0x06, 0x07, 0x09, 0x0A, 0x0C, 0x0E, 0x10, 0x10, 0x11, 0x11, 0x12, 0x13, 0x15, 0x16, 0x18, 0x30, 0x31])
+        blk = rng.choice([0, 0, 0x0C])
+        if thumb:
+            return [_t16(T.mov_imm(0, op)), 0xF6400100 | blk, 0xF2C00102, _t16(rng.choice([0xDFAB, 0xDFAB, 0xBEAB]))]
+        return [A.mov_imm(0, op), 0xE3001800 | blk, 0xE3401002, rng.choice([0xEF123456, 0xEF123456, 0xE1200A7B, 0xEF0000AB])]          # SVC 0x123456 / BKPT 0xAB / SVC 0xAB
     if k == 0 or k == 1:
         size = rng.choice(['w', 'w', 'b', 'h'])
         if thumb:
